@@ -40,7 +40,7 @@ def config(rng, name, m, dname, with_pref=None):
     if name in ("AlignedMTL", "ConFIG"):
         return {"name": name, "pref": pref}
     if name == "MGDA":
-        return {"name": name}
+        return {"name": name} if rng.random() < 0.6 else {"name": name, "epsilon": [1e-3, 1e-6, 0.0][int(rng.integers(3))], "max_iters": [100, 300][int(rng.integers(2))]}
     if name == "CAGrad":
         return {"name": name, "c": float(np.round(rng.uniform(0.2, 2.0), 2))}
     if name == "Krum":
@@ -186,7 +186,10 @@ def run(desc, Jt: torch.Tensor, seed=0, script=None):
 
     script: {"rand": [tensors]} forces GradDrop's uniform draws (same draws for a transformed matrix).
     Returns (out float64 array | None, error | None, record dict)."""
-    agg = aggs.make(desc, Jt.dtype)
+    # aggregators without per-row configuration are long-lived instances shared by all the cases of the process (row counts,
+    # shapes and scales vary from call to call, as in a training loop); the others are built per call
+    per_row = any(desc.get(k) is not None for k in ("pref", "weights", "leak")) or desc.get("hook")
+    agg = aggs.make(desc, Jt.dtype) if per_row else aggs.shared(desc, Jt.dtype)
     torch.manual_seed(int(seed))
     REC.start()
     if script and script.get("rand") is not None:
